@@ -8,6 +8,10 @@ CHECKS = {
    text="Round-trip oracle over generated size sequences on every one of the 96 transport x pattern x mode configurations; boundary-biased generated search, not a proof.",
    note="Assumes loopback TCP/unix sockets and Go's TLS/websocket stacks deliver bytes faithfully; sizes above 1 MiB and MaxRecvSize=0 are outside the domain.",
    technique="property-based testing (rapid), round-trip oracle, boundary-biased size generator"),
+ "C03": dict(
+   text="Model-based state-machine search: every Recv result of a real REQ socket (1-3 contexts, 1-3 connections) is compared with a reference model while the harness, acting as the REP peers on a scripted transport, injects current, stale, foreign, duplicate, bit-less, random and short replies. Generated histories, not exhaustive.",
+   note="Trusts the vt barrier (receiver back in Recv) as the definition of 'reply arrived'; blocking predictions use a 40 ms deadline (lower bound exact). Histories are bounded (~30-100 steps, 3 contexts, 3 pipes).",
+   technique="stateful property-based testing (rapid state machine) against a reference model over a virtual transport"),
 }
 
 ALL = ["C%02d" % i for i in range(1, 21)]
